@@ -2,10 +2,15 @@ package main
 
 import (
 	"fmt"
+	"os"
 
-	_ "golang.org/x/tools/go/packages"
-	_ "golang.org/x/tools/go/ssa"
-	_ "golang.org/x/tools/go/ssa/ssautil"
+	"gvc/eng"
 )
 
-func main() { fmt.Println("gvc") }
+func main() {
+	if len(os.Args) < 2 {
+		fmt.Fprintln(os.Stderr, "usage: gvc check <property> [--tier quick|thorough] | verify <func>... | list | replay <file> | selftest")
+		os.Exit(2)
+	}
+	os.Exit(eng.Main(os.Args[1:]))
+}
